@@ -129,6 +129,8 @@ def arg_sets(ctx):
                  "crop_corner": rng.choice([True, True, False])}
             if rng.random() < 0.3:
                 a["dtype"] = rng.choice([np.float32, np.complex64, np.float64])
+            if rng.random() < 0.25:
+                a["max_attempts"] = rng.choice([10, 60])
             A.append(a)
     # the two argument tuples that used to hang, and boundary requests
     A.append({"img_shape": (16, 16), "accel": 11.5})
